@@ -1,7 +1,7 @@
 """E3: panic-capable site inventory with discharge (DESIGN.md §2.3)."""
 import re
 from .mir import callee_matches
-from .expr import Ex, norm, show, walk
+from .expr import Ex, norm, show, walk, canon
 from .intervals import Intervals, ty_range, bits_of, dominating_facts, TOP, argtys_of
 
 # callees that panic by contract (regex on declared callee / resolved instance)
@@ -189,6 +189,7 @@ def const_return_summaries(facts):
         ex = Ex(f)
         vals = []
         okf = True
+        allconst = True
         for b in f.exits():
             e = norm(ex.local(0, (b, None)))
             iv = Intervals()
@@ -197,6 +198,7 @@ def const_return_summaries(facts):
                 if p[0] in ("const", "named") and isinstance(p[2], int):
                     vals.append(p[2])
                 elif p[0] == "bin" or p[0] == "cast":
+                    allconst = False
                     r = Intervals(out).range_of(p, f.locals[0]["ty"])
                     if r == TOP or r == ty_range(f.locals[0]["ty"]):
                         okf = False
@@ -206,6 +208,9 @@ def const_return_summaries(facts):
                     okf = False
         if okf and vals and f.locals[0]["ty"] in ("usize", "u8", "u16", "u32", "u64", "i32", "i64"):
             out["^" + re.escape(f.path) + "$"] = (min(vals), max(vals))
+            if allconst and len(set(vals)) <= 8:
+                # every return is a literal: the finite value set supports a case split (key_length in {16, 24, 32})
+                out["set:^" + re.escape(f.path) + "$"] = tuple(sorted(set(vals)))
         # Ok payload of functions returning Result<integer, _>
         m = re.match(r"^std::result::Result<(u8|u16|u32|u64|usize), ", f.locals[0]["ty"])
         if m:
@@ -229,7 +234,156 @@ def const_return_summaries(facts):
     return out
 
 
+def subst(e, m):
+    """replace every sub-expression whose canonical form is a key of m"""
+    k = e[0]
+    if k == "call":
+        ce = canon(e)
+        if ce in m:
+            return m[ce]
+        return ("call", e[1], tuple(subst(a, m) for a in e[2])) + e[3:]
+    if k in ("field", "variant"):
+        return (k, subst(e[1], m), e[2])
+    if k in ("discr", "len", "ok", "err", "errprop", "residual"):
+        return (k, subst(e[1], m))
+    if k == "cast":
+        return ("cast", subst(e[1], m)) + e[2:]
+    if k == "un":
+        return ("un", e[1], subst(e[2], m))
+    if k == "bin":
+        return ("bin", e[1], subst(e[2], m), subst(e[3], m))
+    if k == "index":
+        return ("index", subst(e[1], m), subst(e[2], m))
+    if k == "subslice":
+        return ("subslice", subst(e[1], m)) + e[2:]
+    if k == "agg":
+        return ("agg", e[1], e[2], tuple((f, subst(a, m)) for f, a in e[3]))
+    if k == "phi":
+        return ("phi", tuple(subst(a, m) for a in e[1]))
+    if k == "repeat":
+        return ("repeat", subst(e[1], m), e[2])
+    return e
+
+
+def finite_calls(exprs, summaries):
+    """{canon(call): (values...)} for calls to crate functions whose every return is one of a few literals and whose arguments are
+    plain places (pure accessors of a mode/enum)"""
+    out = {}
+    sets = {p[4:]: v for p, v in summaries.items() if p.startswith("set:")}
+    for e in exprs:
+        for x in walk(e):
+            if x[0] == "call":
+                for pat, vals in sets.items():
+                    if re.search(pat, x[1]) or re.search(pat, x[3] or ""):
+                        if all(a[0] in ("arg", "field", "local") or (a[0] == "field") for a in x[2]):
+                            out[canon(x)] = vals
+    return out
+
+
 def discharge(facts, site, summaries):
+    """-> (class, reason); tries the direct argument first, then a case split over finite-valued pure calls in the operands"""
+    cls, why = discharge1(facts, site, summaries)
+    if cls or not site.ops:
+        return cls, why
+    fc = finite_calls(site.ops, summaries)
+    if not fc or len(fc) > 2:
+        return cls, why
+    import itertools
+    keys = sorted(fc, key=repr)
+    combos = list(itertools.product(*[fc[k_] for k_ in keys]))
+    if len(combos) > 64:
+        return cls, why
+    saved = site.ops
+    try:
+        for combo in combos:
+            m = {k_: ("const", "usize", v) for k_, v in zip(keys, combo)}
+            site.ops = [subst(o, m) for o in saved]
+            c1, _ = discharge1(facts, site, summaries)
+            if not c1:
+                return None, ""
+    finally:
+        site.ops = saved
+    return "case-split", "holds for each value of %s" % ", ".join("%s in %s" % (show(k_), list(fc[k_])) for k_ in keys)
+
+
+def slice_len(e):
+    """symbolic length of a slice-valued expression (None if unknown)"""
+    while True:
+        if e[0] == "call" and re.search(r"Deref(Mut)?::deref(_mut)?$|AsRef<.*>::as_ref$|AsMut<.*>::as_mut$|::as_slice$|::as_mut_slice$|Borrow(Mut)?::borrow(_mut)?$", e[1]) and e[2]:
+            e = e[2][0]
+            continue
+        if e[0] == "cast":
+            e = e[1]
+            continue
+        break
+    if e[0] == "repeat":
+        try:
+            return ("const", "usize", int(str(e[2]).split("_")[0]))
+        except ValueError:
+            return None
+    if e[0] == "call" and re.search(r"vec::from_elem$", e[1]) and len(e[2]) == 2:
+        return e[2][1]
+    if e[0] == "field" and e[1][0] == "call" and re.search(r"::split_at(_mut)?$", e[1][1]) and len(e[1][2]) == 2:
+        base, mid = e[1][2]
+        if e[2] == "0":
+            return mid
+        bl = slice_len(base)
+        if e[2] == "1" and bl is not None:
+            return ("bin", "Sub", bl, mid)
+    return None
+
+
+def slice_span(e):
+    """(root, offset expr, length expr) of a slice carved out of a buffer by ranges / split_at; None if the shape is unknown"""
+    Z = ("const", "usize", 0)
+    add = lambda a, b: b if a == Z else a if b == Z else ("bin", "Add", a, b)
+    sub = lambda a, b: a if b == Z else ("bin", "Sub", a, b)
+    while True:
+        if e[0] == "call" and re.search(r"Deref(Mut)?::deref(_mut)?$|AsRef<.*>::as_ref$|AsMut<.*>::as_mut$|::as_slice$|::as_mut_slice$|Borrow(Mut)?::borrow(_mut)?$", e[1]) and e[2]:
+            e = e[2][0]
+            continue
+        if e[0] == "cast":
+            e = e[1]
+            continue
+        break
+    if e[0] == "call" and re.search(r"Index(Mut)?::index(_mut)?$", e[1]) and len(e[2]) == 2 and e[2][1][0] == "agg" and e[2][1][1].startswith("adt:Range"):
+        inner = slice_span(e[2][0])
+        if inner is None:
+            return None
+        root, off, ln = inner
+        d = dict(e[2][1][3])
+        kind = e[2][1][1]
+        if kind == "adt:RangeFull":
+            return inner
+        start, end = d.get("start", Z), d.get("end")
+        if kind == "adt:RangeInclusive" or kind == "adt:RangeToInclusive":
+            return None
+        if end is None:
+            return (root, add(off, start), sub(ln, start))
+        return (root, add(off, start), sub(end, start))
+    if e[0] == "field" and e[1][0] == "call" and re.search(r"::split_at(_mut)?$", e[1][1]) and len(e[1][2]) == 2:
+        inner = slice_span(e[1][2][0])
+        if inner is None:
+            return None
+        root, off, ln = inner
+        mid = e[1][2][1]
+        if e[2] == "0":
+            return (root, off, mid)
+        if e[2] == "1":
+            return (root, add(off, mid), sub(ln, mid))
+        return None
+    sl = slice_len(e)
+    if sl is None:
+        return None
+    return (e, Z, sl)
+
+
+def _is_len_of(a, base):
+    a = _strip_casts(a)
+    return (a[0] == "call" and re.search(r"::len$", a[1]) and a[2] and canon(a[2][0]) == canon(base)) or (a[0] == "len" and canon(a[1]) == canon(base))
+
+
+def discharge1(facts, site, summaries):
     """-> (class, reason) with class in interval | guard | None"""
     fn = site.fn
     t = site.term
@@ -302,6 +456,20 @@ def discharge(facts, site, summaries):
         return None, ""
     if k == "index" and callee_matches(t, r"ops::Index(Mut)?::index(_mut)?$") and len(site.ops) == 2:
         return _discharge_index(site.ops[0], site.ops[1], iv)
+    if k == "index" and callee_matches(t, r"::split_at(_mut)?$") and len(site.ops) == 2:
+        base, mid = site.ops
+        m = _strip_casts(mid)
+        if m[0] == "call" and re.search(r"::min$", m[1]) and len(m[2]) == 2 and any(_is_len_of(a, base) for a in m[2]):
+            return "interval", "split point is min(_, len(slice))"
+        sl = slice_len(base)
+        if sl is not None:
+            rm, rl = iv.range_of(mid, "usize"), iv.range_of(sl, "usize")
+            if rm[1] <= rl[0]:
+                return "interval", "split point <= %d <= slice length (>= %d)" % (rm[1], rl[0])
+        return None, ""
+    if k == "unwrap" and site.ops and site.ops[0][0] == "call" and re.search(r"(Mac|KeyInit)::new_from_slice$", site.ops[0][1]) and \
+            re.search(r"hmac::HmacCore<", site.recv or ""):
+        return "contract", "HMAC accepts keys of any length: Hmac::new_from_slice never returns Err (hmac 0.12 KeyInit for HmacCore)"
     return None, ""
 
 
@@ -333,6 +501,9 @@ def _discharge_index(base, rng, iv):
         rs = iv.range_of(start, "usize")
         if end is None:
             # RangeFrom: needs start <= len
+            sl = slice_len(base)
+            if sl is not None and rs[1] <= iv.range_of(sl, "usize")[0]:
+                return "interval", "start <= %d <= slice length" % rs[1]
             return None, ""
         if not (rs[1] == 0):
             re_ = iv.range_of(end, "usize")
